@@ -1267,6 +1267,16 @@ func (e *Engine) assumeTypeInv(st *State, t types.Type, addr string) {
 		return
 	}
 	invs := e.P.specs.TypeInvs[shortTypeName(typeName(n))]
+	if full := typeName(n); full != shortTypeName(full) {
+		// an invariant declared with the full package path applies to exactly that type
+		var keep []*TypeInv
+		for _, ti := range invs {
+			if !strings.Contains(ti.Type, "/") {
+				keep = append(keep, ti)
+			}
+		}
+		invs = append(keep, e.P.specs.TypeInvs[full]...)
+	}
 	if len(invs) == 0 {
 		return
 	}
